@@ -105,16 +105,26 @@ impl ClientVisibility {
     }
 
     /// Removes a despawned entity tracked by this client.
-    pub(super) fn remove_despawned(&mut self, entity: Entity) {
+    ///
+    /// Returns `true` if the client lost visibility of the entity during this tick,
+    /// which means that the client still has it and needs to receive the despawn.
+    pub(super) fn remove_despawned(&mut self, entity: Entity) -> bool {
         let removed = match &mut self.list {
             VisibilityList::Blacklist(list) => list.remove(&entity).is_some(),
             VisibilityList::Whitelist(list) => list.remove(&entity).is_some(),
+        };
+
+        let lost = match &self.list {
+            VisibilityList::Blacklist(_) => self.added.remove(&entity),
+            VisibilityList::Whitelist(_) => self.removed.remove(&entity),
         };
 
         if removed {
             self.added.remove(&entity);
             self.removed.remove(&entity);
         }
+
+        lost
     }
 
     /// Drains all entities for which visibility was lost during this tick.
